@@ -194,7 +194,7 @@ CHECKS['C10'] = dict(
 CHECKS['C20'] = dict(
     text='Lean model of x12norm.main over the C01 reader and C04 envelope models with theorems norm_preserves_segments, isa_line_verbatim, '
          'one_per_line, norm_idempotent (full strength except the ISA16-empty case: counterexample proved, finding listed), fix_repairs_counts, '
-         'fix_leaves_no_count_error, fix_alters_nothing_else, norm_never_crashes; two -f statements are _partial (texts in normal form). Tied '
+         'fix_leaves_no_count_error, fix_alters_nothing_else, norm_never_crashes; the -f statements hold at full strength (norm_idempotent_fix_holds, fix_reread_holds), idempotence is characterised exactly (norm_idempotent_all: iff no ISA with empty ISA16), normalisation commutes with a change of terminator (norm_reterm, norm_reterm_text), -f keeps control numbers and every non-count line (fix_keeps_control_numbers, fix_keeps_other_lines). Tied '
          'to /repo by running the real main() in-process on files (all option combinations: eol, fix, stdout / -o / in place) built from '
          'generated documents with corrupted counts and HL numbers, compared with the model and an independent required output; output is '
          're-normalised and re-read with the real reader.',
